@@ -108,6 +108,37 @@ static bool vfpprod_equal_modulo_location(const Opm::ScheduleState& a, const Opm
     return true;
 }
 
+static bool vfpinj_equal_modulo_location(const Opm::ScheduleState& a, const Opm::ScheduleState& b) {
+    const auto ka = a.vfpinj.keys(), kb = b.vfpinj.keys();
+    if (ka != kb) return false;
+    for (const auto& k : ka) {
+        const auto& x = a.vfpinj(k); const auto& y = b.vfpinj(k);
+        if (!(x.getTableNum() == y.getTableNum() && x.getDatumDepth() == y.getDatumDepth() && x.getFloType() == y.getFloType() && x.getFloAxis() == y.getFloAxis() && x.getTHPAxis() == y.getTHPAxis() && x.getTable() == y.getTable())) return false;
+    }
+    return true;
+}
+
+// GCONSUMPGroup / GCONSALEGroup carry a UnitSystem object (with its lazily filled dimension cache) that their operator== compares:
+// equal modulo that object, group by group (the groups are the ones of the schedule state)
+static bool gconsump_equal_modulo_unit_cache(const Opm::ScheduleState& a, const Opm::ScheduleState& b) {
+    const auto& x = a.gconsump.get(); const auto& y = b.gconsump.get();
+    if (x == y) return true;
+    if (x.size() != y.size()) return false;
+    for (const auto& g : a.groups()) { const auto& n = g.get().name(); if (x.has(n) != y.has(n)) return false; if (!x.has(n)) continue;
+        const auto& p = x.get(n); const auto& q = y.get(n);
+        if (!(p.consumption_rate == q.consumption_rate && p.import_rate == q.import_rate && p.network_node == q.network_node && p.udq_undefined == q.udq_undefined)) return false; }
+    return true;
+}
+static bool gconsale_equal_modulo_unit_cache(const Opm::ScheduleState& a, const Opm::ScheduleState& b) {
+    const auto& x = a.gconsale.get(); const auto& y = b.gconsale.get();
+    if (x == y) return true;
+    if (x.size() != y.size()) return false;
+    for (const auto& g : a.groups()) { const auto& n = g.get().name(); if (x.has(n) != y.has(n)) return false; if (!x.has(n)) continue;
+        const auto& p = x.get(n); const auto& q = y.get(n);
+        if (!(p.sales_target == q.sales_target && p.max_sales_rate == q.max_sales_rate && p.min_sales_rate == q.min_sales_rate && p.max_proc == q.max_proc && p.udq_undefined == q.udq_undefined)) return false; }
+    return true;
+}
+
 std::string state_member_diff(const Opm::ScheduleState& a, const Opm::ScheduleState& b, bool mask_events, bool mask_udq, bool mask_end_time) {
     std::string differs;
     auto chk = [&](bool same, const char* what) { if (!same && differs.empty()) differs = what; };
@@ -121,9 +152,9 @@ std::string state_member_diff(const Opm::ScheduleState& a, const Opm::ScheduleSt
     chk(a.guide_rate.get() == b.guide_rate.get(), "guide_rate"); chk(a.tuning() == b.tuning(), "tuning"); chk(a.well_order.get() == b.well_order.get(), "well_order");
     chk(a.group_order.get() == b.group_order.get(), "group_order"); chk(a.glo.get() == b.glo.get(), "glo"); chk(a.network.get() == b.network.get(), "network");
     chk(a.network_balance.get() == b.network_balance.get(), "network_balance");
-    chk(a.bhp_defaults.get() == b.bhp_defaults.get(), "bhp_defaults"); chk(a.gconsale.get() == b.gconsale.get(), "gconsale"); chk(a.gconsump.get() == b.gconsump.get(), "gconsump");
+    chk(a.bhp_defaults.get() == b.bhp_defaults.get(), "bhp_defaults"); chk(gconsale_equal_modulo_unit_cache(a, b), "gconsale"); chk(gconsump_equal_modulo_unit_cache(a, b), "gconsump");
     chk(a.source.get() == b.source.get(), "source");
-    chk(a.target_wellpi == b.target_wellpi, "target_wellpi"); chk(a.next_tstep == b.next_tstep, "next_tstep"); chk(vfpprod_equal_modulo_location(a, b), "vfpprod"); chk(a.vfpinj == b.vfpinj, "vfpinj");
+    chk(a.target_wellpi == b.target_wellpi, "target_wellpi"); chk(a.next_tstep == b.next_tstep, "next_tstep"); chk(vfpprod_equal_modulo_location(a, b), "vfpprod"); chk(vfpinj_equal_modulo_location(a, b), "vfpinj");
     chk(a.start_time() == b.start_time(), "start_time"); chk(a.sim_step() == b.sim_step(), "sim_step"); chk(a.rptonly() == b.rptonly(), "rptonly"); chk(a.sumthin() == b.sumthin(), "sumthin");
     chk(a.oilvap() == b.oilvap(), "oilvap"); chk(a.nupcol() == b.nupcol(), "nupcol"); chk(a.whistctl() == b.whistctl(), "whistctl");
     chk(a.month_num() == b.month_num() && a.year_num() == b.year_num() && a.first_in_month() == b.first_in_month() && a.first_in_year() == b.first_in_year(), "calendar_flags");
